@@ -155,6 +155,12 @@ def p_index(rng, metas, objs):
         idx = [[rng.randrange(shape[0]) for _ in range(2)], slice(None), [rng.randrange(shape[2]) for _ in range(2)]]
     if shape and shape[0] and rng.random() < 0.03:
         return {"idx": {"f": [float(rng.randrange(shape[0]))]}}
+    if shape and rng.random() < 0.06:
+        # numpy bool scalars are legal indices (0-d masks) and compare equal to the integers 0 and 1
+        b = np.bool_(rng.random() < 0.5)
+        return {"idx": encode_index(b if rng.random() < 0.6 else (b, Ellipsis))}
+    if shape and shape[0] >= 2 and rng.random() < 0.06:
+        return {"idx": encode_index(rng.choice([0, 1]))}
     if sum(1 for i in idx if i is Ellipsis) > 1:
         idx = [i for i in idx if i is not Ellipsis]
     t = tuple(idx) if len(idx) != 1 or rng.random() < 0.3 else idx[0]
